@@ -805,12 +805,14 @@ class Executor:
             # another step may have recorded a change of the same file in the meantime,
             # which also moves a built file to OUTDATED and a re-declared static file
             # through UNCONFIRMED.
-            inp_records = list(run.step.inp_paths())
+            # The raw edges are used: an input whose producer is detached for a moment
+            # (its plan is running again and has not re-defined it yet) is still an input,
+            # and leaving it out would store a step hash that does not cover it.
             inp_hashes = {}
-            for rec in inp_records:
+            for rec in run.step.inp_paths(raw=True):
                 if rec.path in run.start_inp_hashes:
                     inp_hashes[rec.path] = run.start_inp_hashes[rec.path]
-                elif rec.state in (FileState.BUILT, FileState.CONFIRMED):
+                elif not rec.detached and rec.state in (FileState.BUILT, FileState.CONFIRMED):
                     inp_hashes[rec.path] = rec.hash
             env_deps = list(run.step.env_deps())
             out_hashes = {rec.path: rec.hash for rec in run.step.out_paths()}
